@@ -465,6 +465,233 @@ theorem parse_insert_child (cfg : Cfg) (ls : List Str) (i : Nat) (txt : Str)
     rw [hpo (j + 1) (by omega), r4 j _ hej hl hcm, parse_parentOf cfg ls hp hi j hjl]
     rfl
 
+/-! ## `specParent` when a set of lines is removed -/
+
+/-- the kept elements, in order (`c` = index of the head of the list) -/
+def sel (keep : Nat → Bool) : Nat → List α → List α
+  | _, [] => []
+  | c, a :: as => if keep c then a :: sel keep (c + 1) as else sel keep (c + 1) as
+
+/-- number of kept positions below `n` = new position of a kept line `n` -/
+def rank (keep : Nat → Bool) : Nat → Nat
+  | 0 => 0
+  | n + 1 => rank keep n + (if keep n then 1 else 0)
+
+theorem sel_append (keep : Nat → Bool) (c : Nat) (l1 l2 : List α) :
+    sel keep c (l1 ++ l2) = sel keep c l1 ++ sel keep (c + l1.length) l2 := by
+  induction l1 generalizing c with
+  | nil => simp [sel]
+  | cons a as ih =>
+    simp only [List.cons_append, sel, ih, List.length_cons]
+    have : c + 1 + as.length = c + (as.length + 1) := by omega
+    rw [this]
+    split <;> simp
+
+theorem sel_take_length (keep : Nat → Bool) (l : List α) (n : Nat) (hn : n ≤ l.length) :
+    (sel keep 0 (l.take n)).length = rank keep n := by
+  induction n with
+  | zero => simp [sel, rank]
+  | succ n ih =>
+    have hlt : n < l.length := by omega
+    rw [List.take_succ_eq_append_getElem hlt, sel_append, List.length_append, ih (by omega)]
+    simp only [List.length_take, Nat.min_eq_left (Nat.le_of_lt hlt), Nat.zero_add, sel, rank]
+    split <;> simp
+
+/-- a kept line `n` is found at position `rank n` of the new list -/
+theorem sel_getElem? (keep : Nat → Bool) (l : List α) (n : Nat) (hn : n < l.length) (hk : keep n = true) :
+    (sel keep 0 l)[rank keep n]? = l[n]? := by
+  have h1 : l = l.take n ++ l[n] :: l.drop (n + 1) := by simp
+  have h2 : sel keep 0 l = sel keep 0 (l.take n) ++ (l[n] :: sel keep (n + 1) (l.drop (n + 1))) := by
+    conv => lhs; rw [h1]
+    rw [sel_append]
+    simp only [List.length_take, Nat.min_eq_left (Nat.le_of_lt hn), Nat.zero_add, sel, hk, if_true]
+  rw [h2, List.getElem?_append_right (by rw [sel_take_length keep l n (by omega)]; exact Nat.le_refl _),
+    sel_take_length keep l n (by omega)]
+  simp [List.getElem?_eq_getElem hn]
+
+theorem sel_eq_filter (keep : Nat → Bool) (l : List α) (c : Nat) :
+    sel keep c l = ((l.zipIdx c).filter (fun p => keep p.2)).map (·.1) := by
+  induction l generalizing c with
+  | nil => rfl
+  | cons a as ih =>
+    simp only [sel, List.zipIdx_cons, List.filter_cons, ih (c + 1)]
+    split <;> simp
+
+theorem eraseAll_eq_sel (l : List α) (idxs : List Nat) :
+    Ccp.Edit.eraseAll l idxs = sel (fun j => !idxs.contains j) 0 l := by
+  rw [Ccp.Edit.eraseAll_eq_filter, sel_eq_filter]
+
+/-- `nearestShallower` over the kept lines: an answer that is kept stays the answer -/
+theorem nearestShallower_sel (keep : Nat → Bool) (infos : List Info) (k n : Nat) (hn : n ≤ infos.length) :
+    (nearestShallower infos k n = none → nearestShallower (sel keep 0 infos) k (rank keep n) = none) ∧
+    (∀ p, nearestShallower infos k n = some p → keep p = true →
+      nearestShallower (sel keep 0 infos) k (rank keep n) = some (rank keep p)) := by
+  induction n with
+  | zero => simp [nearestShallower, rank]
+  | succ n ih =>
+    have hlt : n < infos.length := by omega
+    obtain ⟨ih1, ih2⟩ := ih (by omega)
+    have hr : infos[n]? = some infos[n] := List.getElem?_eq_getElem hlt
+    have hold : nearestShallower infos k (n + 1)
+        = if infos[n].isCfg = true ∧ infos[n].indent < k then some n else nearestShallower infos k n := by
+      conv => lhs; unfold nearestShallower
+      rw [hr]
+    rw [hold]
+    by_cases hk : keep n = true
+    · have hrank : rank keep (n + 1) = rank keep n + 1 := by simp [rank, hk]
+      have hnew : nearestShallower (sel keep 0 infos) k (rank keep n + 1)
+          = if infos[n].isCfg = true ∧ infos[n].indent < k then some (rank keep n)
+            else nearestShallower (sel keep 0 infos) k (rank keep n) := by
+        conv => lhs; unfold nearestShallower
+        rw [sel_getElem? keep infos n hlt hk, hr]
+      rw [hrank, hnew]
+      by_cases hc : infos[n].isCfg = true ∧ infos[n].indent < k
+      · simp only [hc, and_self, if_true]
+        refine ⟨fun h => (by cases h), fun p hp _ => ?_⟩
+        cases hp; rfl
+      · simp only [hc, if_false]
+        exact ⟨ih1, ih2⟩
+    · have hrank : rank keep (n + 1) = rank keep n := by simp [rank, hk]
+      rw [hrank]
+      by_cases hc : infos[n].isCfg = true ∧ infos[n].indent < k
+      · simp only [hc, and_self, if_true]
+        refine ⟨fun h => (by cases h), fun p hp hkp => ?_⟩
+        cases hp; exact absurd hkp hk
+      · simp only [hc, if_false]
+        exact ⟨ih1, ih2⟩
+
+
+/-- **removing lines on the specification level**: a kept line `j` whose parent is itself
+or a kept line, and whose comment-under-a-deeper-line status is not disturbed, has the new
+position of its old parent as its parent in the new list. -/
+theorem specParent_sel (keep : Nat → Bool) (infos : List Info) (j : Nat) (hj : j < infos.length)
+    (hkj : keep j = true)
+    (hcud : commentUnderDeeper (sel keep 0 infos) (rank keep j) = commentUnderDeeper infos j)
+    (hpar : specParent infos j = j ∨ keep (specParent infos j) = true) :
+    specParent (sel keep 0 infos) (rank keep j) = rank keep (specParent infos j) := by
+  have hl : infos[j]? = some infos[j] := List.getElem?_eq_getElem hj
+  have hnl := sel_getElem? keep infos j hj hkj
+  rw [hl] at hnl
+  have hold : specParent infos j = if infos[j].indent = 0 ∨ commentUnderDeeper infos j = true then j
+      else (nearestShallower infos infos[j].indent j).getD j := by
+    unfold specParent; rw [hl]
+  have hnew : specParent (sel keep 0 infos) (rank keep j)
+      = if infos[j].indent = 0 ∨ commentUnderDeeper infos j = true then rank keep j
+        else (nearestShallower (sel keep 0 infos) infos[j].indent (rank keep j)).getD (rank keep j) := by
+    unfold specParent; rw [hnl]; simp only [hcud]
+  rw [hold] at hpar
+  rw [hnew, hold]
+  split
+  · rfl
+  · rename_i hroot
+    simp only [hroot, if_false] at hpar
+    obtain ⟨h1, h2⟩ := nearestShallower_sel keep infos infos[j].indent j (by omega)
+    cases hn : nearestShallower infos infos[j].indent j with
+    | none => rw [h1 hn]; rfl
+    | some p =>
+      rw [hn] at hpar
+      simp only [Option.getD_some] at hpar ⊢
+      have hp := ((nearestShallower_eq_some infos _ j p).mp hn).1
+      rcases hpar with hpar | hpar
+      · omega
+      · rw [h2 p hn hpar]; rfl
+
+/-- the comment status is undisturbed when the line is not a comment, or the line directly
+above it is kept as well -/
+theorem commentUnderDeeper_sel (keep : Nat → Bool) (infos : List Info) (j : Nat) (hj : j < infos.length)
+    (hkj : keep j = true)
+    (h : infos[j].isCmt = false ∨ ∃ j', j = j' + 1 ∧ keep j' = true) :
+    commentUnderDeeper (sel keep 0 infos) (rank keep j) = commentUnderDeeper infos j := by
+  have hl : infos[j]? = some infos[j] := List.getElem?_eq_getElem hj
+  have hnl := sel_getElem? keep infos j hj hkj
+  rw [hl] at hnl
+  rcases h with h | ⟨j', rfl, hk'⟩
+  · have e1 : commentUnderDeeper infos j = false := by
+      unfold commentUnderDeeper; cases j <;> simp [hl, h]
+    have e2 : commentUnderDeeper (sel keep 0 infos) (rank keep j) = false := by
+      unfold commentUnderDeeper
+      cases hr : rank keep j with
+      | zero => rfl
+      | succ r => rw [hr] at hnl; simp [hnl, h]
+    rw [e1, e2]
+  · have hr : rank keep (j' + 1) = rank keep j' + 1 := by simp [rank, hk']
+    rw [hr] at hnl ⊢
+    have hp := sel_getElem? keep infos j' (by omega) hk'
+    unfold commentUnderDeeper
+    simp only [hnl, hl, hp]
+
+theorem plain_sublist (cfg : Cfg) {ls ls' : List Str} (h : ls'.Sublist ls) (hp : Plain cfg ls) : Plain cfg ls' :=
+  ⟨fun x hx => hp.1 x (h.subset hx), fun hios x hx => hp.2 hios x (h.subset hx)⟩
+
+/-- **`parse` after deleting line `i` and its descendants** (no banner / macro starts, blank
+lines kept): a surviving line `j` sits at `rank keep j` with its old text, and its parent
+is the new position of its old parent — except possibly a comment whose directly preceding
+line was deleted. -/
+theorem parse_delete (cfg : Cfg) (ls : List Str) (i : Nat)
+    (hp : Plain cfg ls) (hi : cfg.ignoreBlank = false) :
+    let t := parse cfg ls
+    let dead := Ccp.Edit.descendantsAndSelf t i
+    let keep : Nat → Bool := fun j => !dead.contains j
+    let t' := parse cfg (Ccp.Edit.eraseAll ls dead)
+    t'.texts = Ccp.Edit.eraseAll ls dead ∧
+    ∀ j, j < ls.length → keep j = true →
+      t'.texts[rank keep j]? = ls[j]? ∧
+      (keep (parentOf t j) = true) ∧
+      (¬ (isComment cfg (ls.getD j []) = true ∧ ∃ j', j = j' + 1 ∧ keep j' = false) →
+        parentOf t' (rank keep j) = rank keep (parentOf t j)) := by
+  intro t dead keep t'
+  have hst := parse_specTree cfg ls hp hi
+  have hf : Forest t := hst.1
+  have hp' : Plain cfg (Ccp.Edit.eraseAll ls dead) := plain_sublist cfg (Ccp.Edit.eraseAll_sublist ls dead) hp
+  have htx : t'.texts = Ccp.Edit.eraseAll ls dead := by
+    show (parse cfg _).texts = _; rw [parse_plain cfg _ hp' hi]
+  have hsel : Ccp.Edit.eraseAll ls dead = sel keep 0 ls := eraseAll_eq_sel ls dead
+  have hinf : (Ccp.Edit.eraseAll ls dead).map (info cfg) = sel keep 0 (ls.map (info cfg)) := by
+    rw [Ccp.Edit.eraseAll_map, eraseAll_eq_sel]
+  refine ⟨htx, fun j hj hkj => ?_⟩
+  have hget : (sel keep 0 ls)[rank keep j]? = ls[j]? := sel_getElem? keep ls j hj hkj
+  have hrl : rank keep j < (Ccp.Edit.eraseAll ls dead).length := by
+    rw [hsel]
+    have : (sel keep 0 ls)[rank keep j]? = some ls[j] := by rw [hget, List.getElem?_eq_getElem hj]
+    exact (List.getElem?_eq_some_iff.mp this).1
+  -- the parent of a survivor survives
+  have hjd : j ∉ dead := by simpa [keep] using hkj
+  have hkp : keep (parentOf t j) = true := by
+    by_cases hpj : parentOf t j = j
+    · rw [hpj]; exact hkj
+    · have hlt : parentOf t j < j := by have := parentOf_le_of_forest hf j; omega
+      have : parentOf t j ∉ dead := by
+        intro hm
+        apply hjd
+        simp only [dead, Ccp.Edit.descendantsAndSelf, List.mem_cons] at hm ⊢
+        right
+        rw [mem_allChildren hf, ancestors_of_lt hlt]
+        rcases hm with hm | hm
+        · simp [hm]
+        · exact List.mem_cons_of_mem _ ((mem_allChildren hf).mp hm)
+      simpa [keep] using this
+  refine ⟨by rw [htx, hsel]; exact hget, hkp, fun hex => ?_⟩
+  have hjl : j < (ls.map (info cfg)).length := by simpa using hj
+  have hcud : commentUnderDeeper (sel keep 0 (ls.map (info cfg))) (rank keep j)
+      = commentUnderDeeper (ls.map (info cfg)) j := by
+    cases j with
+    | zero => simp [rank, commentUnderDeeper]
+    | succ j' =>
+      apply commentUnderDeeper_sel keep _ _ hjl hkj
+      by_cases hc : isComment cfg (ls.getD (j' + 1) []) = true
+      · right
+        refine ⟨j', rfl, ?_⟩
+        cases hk' : keep j' with
+        | true => rfl
+        | false => exact absurd ⟨hc, j', rfl, hk'⟩ hex
+      · left
+        simp only [List.getElem_map, info]
+        rw [List.getD_eq_getElem?_getD, List.getElem?_eq_getElem hj] at hc
+        simpa using hc
+  have hpo := parse_parentOf cfg ls hp hi j hj
+  rw [parse_parentOf cfg _ hp' hi _ hrl, hinf,
+    specParent_sel keep _ j hjl hkj hcud (by rw [← hpo]; exact .inr hkp), ← hpo]
+
 end Ccp.Tree
 
 namespace Ccp.Edit
